@@ -1279,6 +1279,9 @@ func (x *Exec) run(fn *ssa.Function, args []Value, st *State, pcIn *Term) (Value
 				if loops == nil && !unwinding {
 					panic(needUnwind{})
 				}
+				if i.IsString && loops != nil {
+					unsupported("range over a string in %s, a function with loop invariants (no invariant rule for string iterators: remove the loop contract to have it unrolled)", fnKey(fn))
+				}
 				vals[i] = x.rangeNext(get(i.Iter), cur, pc)
 			case *ssa.Select:
 				// only the poll of a context: select { case <-ctx.Done(): …; default: }
